@@ -15,6 +15,8 @@ enum Op {
     Set(String, String),
     Delete(String),
     Title(String),
+    /// serialize, parse the image, continue on the parsed archive (clean, same title / entries)
+    Reload,
 }
 
 const MSGS: [&str; 10] = ["", "x", "\\n", "\n", "x\\ny", "\\\\n", "\\", "n", "\\\nn", "\\n\\n"];
@@ -83,6 +85,19 @@ impl Sys {
             Op::Set(k, m) => t.set_message(k, m),
             Op::Delete(k) => t.delete_message(k),
             Op::Title(s) => t.set_title(s.clone()),
+            Op::Reload => {}
+        }
+    }
+    /// Reload needs the format: done here, not in `apply`
+    fn apply_on(&self, t: &mut TextArchive, op: &Op) {
+        if let Op::Reload = op {
+            if let Ok(b) = t.serialize() {
+                if let Ok(n) = TextArchive::from_bytes(&b, self.fmt, self.endian) {
+                    *t = n;
+                }
+            }
+        } else {
+            Sys::apply(t, op);
         }
     }
     /// all observers; returns the list of divergences from the model
@@ -141,6 +156,11 @@ impl System for Sys {
         }
         v.push(Op::Title("".into()));
         v.push(Op::Title("T".into()));
+        // (not in the engine cross-check, whose states are rebuilt through set calls only)
+        if !self.only_new && self.encodable(&_s.0.model) && !(matches!(self.fmt, TextArchiveFormat::ShiftJIS) && !_s.0.model.title.is_empty()) {
+            // (the legacy format does not store the title: a reload would lose it)
+            v.push(Op::Reload);
+        }
         v
     }
     fn step(&self, s: &Self::State, history: &[Op], op: &Op) -> Step<Self::State> {
@@ -162,17 +182,19 @@ impl System for Sys {
                 model.delete_message(k)
             }
             Op::Title(t) => model.title = t.clone(),
+            Op::Reload => model.dirty = false,
         }
         let kind = match op {
             Op::Set(..) => "set_message",
             Op::Delete(..) => "delete_message",
             Op::Title(..) => "set_title",
+            Op::Reload => "reload",
         };
         let r = util::catch(|| {
             let mut t = self.fresh(s.0.init);
             // the init state itself must match (clean flag on new / parsed archives)
             for o in history {
-                Sys::apply(&mut t, o);
+                self.apply_on(&mut t, o);
             }
             // every query once BEFORE the call on this same instance (a lookup cache filled
             // here must not survive the call)
@@ -183,8 +205,8 @@ impl System for Sys {
             let _ = t.get_title().to_string();
             let _ = t.is_dirty();
             let _ = t.get_entries().len();
-            Sys::apply(&mut t, op);
-            let mut d = self.observe(&t, &model, false);
+            self.apply_on(&mut t, op);
+            let mut d = self.observe(&t, &model, matches!(op, Op::Reload));
             // storing a looked-up message back changes nothing (but the dirty flag)
             for k in &self.keys {
                 if let Some(g) = t.get_message(k) {
@@ -269,6 +291,7 @@ impl stateright::Model for SrModel {
             Op::Set(k, m) => model.set_message(k, m),
             Op::Delete(k) => model.delete_message(k),
             Op::Title(t) => model.title = t.clone(),
+            Op::Reload => {}
         }
         // rebuild the real archive from the model state alone, apply the call, observe
         let mut t = self.sys.fresh(0);
